@@ -337,6 +337,30 @@ fn c08_pow_bad_exponent_is_error() {
     core::mem::forget((res, va, ve));
 }
 
+macro_rules! pow_trivial_base_harness {
+    ($name:ident, $base:expr) => {
+        #[kani::proof]
+        #[kani::unwind(34)]
+        #[kani::stub(alloc::fmt::format, crate::verif_common::format_stub)]
+        fn $name() {
+            let e: i64 = kani::any();
+            kani::assume(e < 0 || e > u32::MAX as i64);
+            let (va, ve) = (Value::from($base as i64), Value::from(e));
+            let res = pow(&va, &ve);
+            assert!(res.is_err());
+            kani::cover!(e < 0);
+            kani::cover!(e > 0);
+            core::mem::forget((res, va, ve));
+        }
+    };
+}
+
+// @verif-block props=C08,C01 tier=quick cap=600 group=core doc=ops::pow_for_the_bases_whose_powers_never_overflow_(0,_1,_-1)_and_ANY_i64_exponent_that_is_negative_or_above_u32::MAX:_still_an_error_-_the_exponent_is_not_clamped_into_range_(unwind_34_=_the_32_squaring_steps_checked_pow_would_take_for_u32::MAX)
+pow_trivial_base_harness!(c08_pow_bad_exponent_base_0, 0);
+pow_trivial_base_harness!(c08_pow_bad_exponent_base_1, 1);
+pow_trivial_base_harness!(c08_pow_bad_exponent_base_m1, -1);
+// @verif-end
+
 // ---------------------------------------------------------------------------
 // C01: allocations whose size the template chooses - sequence repetition.
 // ---------------------------------------------------------------------------
